@@ -95,6 +95,15 @@ Theorem C08_pending_exact : forall hooks ops init s l (g : inst -> bool),
 Proof. exact pending_exact. Qed.
 Print Assumptions C08_pending_exact.
 
+(* ... hence no result is ever taken twice or of a call that was never started, and nothing is
+   pending that was not started (for every set [g] of instances, over any history) *)
+Theorem C08_collected_within_started : forall hooks ops init s l (g : inst -> bool),
+  run_ops hooks 0 ops (est0 init) = (s, l) ->
+  (nf g (collects (full_trace l)) <= nf g (starts (full_trace l)))%nat /\
+  (pn g s <= nf g (starts (full_trace l)))%nat.
+Proof. exact collected_within_started. Qed.
+Print Assumptions C08_collected_within_started.
+
 (* Collected exactly once, or cancelled at teardown: after any history followed by a cancelling
    operation (teardown) that did not crash, every started instance has been collected or
    cancelled, each exactly once (multiset equality, stated for every set [g] of instances) *)
